@@ -60,6 +60,18 @@ func (e *Env) RunCase(c Case) ([]Line, error) {
 	start := time.Now()
 	lines := []Line{{Event: Event{Ev: "case", ID: c.ID, T: Ms(start), VHas: vHas, V: v}, C: c, Backend: e.Backend}}
 	lines = append(lines, e.request(c, rec, eval, 1)...)
+
+	if c.Seq == "waithit" {
+		// a second use well inside the lifetime, a third one well after its end
+		time.Sleep(time.Until(start.Add(4 * time.Second)))
+
+		lines = append(lines, e.request(c, rec, eval, 2)...)
+
+		time.Sleep(time.Until(start.Add(10 * time.Second)))
+
+		return append(lines, e.request(c, rec, eval, 3)...), nil
+	}
+
 	lines = append(lines, e.request(c, rec, eval, 2)...)
 
 	if c.Seq == "wait" {
@@ -144,7 +156,7 @@ func (e *Env) RunCases(cases []Case, w *trace.Writer, workers int) error {
 	}
 
 	for _, c := range cases {
-		if c.Seq == "wait" {
+		if c.Seq == "wait" || c.Seq == "waithit" {
 			wg.Add(1)
 
 			go func(c Case) {
@@ -156,7 +168,7 @@ func (e *Env) RunCases(cases []Case, w *trace.Writer, workers int) error {
 	}
 
 	for _, c := range cases {
-		if c.Seq != "wait" {
+		if c.Seq != "wait" && c.Seq != "waithit" {
 			ch <- c
 		}
 	}
